@@ -829,6 +829,20 @@ fn exec_line(line: &str) -> Outcome {
                 if po.num_queries() as u64 != q || po.blowup_factor() as u64 != b || po.grinding_factor() as u64 != g {
                     o = o.fail("opts.accessors", "stored options differ from the arguments");
                 }
+                // the remaining accessors (the estimate reads the extension degree through field_extension().degree())
+                let fe = po.field_extension();
+                let fo = po.to_fri_options();
+                if fe != ext
+                    || fe.degree() as u64 != e
+                    || fe.is_none() != (e == 1)
+                    || fo.folding_factor() as u64 != ff
+                    || fo.remainder_max_degree() as u64 != fr
+                    || fo.blowup_factor() as u64 != b
+                    || po.domain_offset::<f64::BaseElement>() != f64::BaseElement::GENERATOR
+                    || po.domain_offset::<f128::BaseElement>() != f128::BaseElement::GENERATOR
+                {
+                    o = o.fail("opts.accessors", "field_extension / to_fri_options / domain_offset differ from the arguments");
+                }
             }
             o
         },
@@ -872,6 +886,9 @@ fn exec_line(line: &str) -> Outcome {
                     let mut o = Outcome::ok(v.to_string());
                     if v as u128 != bit_length(&m) {
                         o = o.fail("bits.value", format!("num_modulus_bits {} but the bit length is {}", v, bit_length(&m)));
+                    }
+                    if ctx.field_modulus_bytes() != &m[..] {
+                        o = o.fail("bits.modulus-bytes", "field_modulus_bytes() is not the modulus the context was read with");
                     }
                     o
                 },
@@ -941,6 +958,24 @@ fn exec_line(line: &str) -> Outcome {
             if let (Some(a), Some(c)) = (&read, &built) {
                 if a != c || a.num_modulus_bits() != c.num_modulus_bits() || a.lde_domain_size() != c.lde_domain_size() {
                     o = o.fail("ctx.constructors-differ", "Context::new and Context::read_from build different contexts");
+                }
+            }
+            // every accessor the estimate and the policy read, on both contexts and through the proof's own wrappers
+            for (name, c) in [("read_from", &read), ("new", &built)] {
+                if let Some(c) = c {
+                    let p = dummy_proof(c.clone());
+                    let lde = (1u128 << l2) * b as u128;
+                    if c.lde_domain_size() as u128 != lde
+                        || p.lde_domain_size() as u128 != lde
+                        || c.trace_info().length() as u128 != 1u128 << l2
+                        || p.trace_info().length() as u128 != 1u128 << l2
+                        || c.field_modulus_bytes() != &m[..]
+                        || c.num_modulus_bits() as u128 != bit_length(&m)
+                        || c.options() != &mk_options(&op).unwrap()
+                        || p.options() != c.options()
+                    {
+                        o = o.fail("ctx.accessors", format!("trace 2^{} blowup {} ({}): lde_domain_size / trace_info / field_modulus_bytes / num_modulus_bits / options", l2, b, name));
+                    }
                 }
             }
             o
